@@ -15,7 +15,7 @@ open Spec.X86 Model.X86 AsmjitVerif.Lemmas.X86Parse AsmjitVerif.Gen.X86ClassRows
 def entryOkMr (e : Entry) : Bool :=
   match e.rule.ops, e.kinds with
   | [f2, f0], [k2, k0] =>
-    e.enc == 0x62 && (vexRuleOk e.rule 0 && (rowAgreeOk e.rule (finalOp e 0x62) && (e.iflags &&& 0x1000000#32 == 0#32 &&
+    (e.enc == 0x62 || e.enc == 0x83 || e.enc == 0x84) && (vexRuleOk e.rule 0 && (rowAgreeOk e.rule (finalOp e 0x62) && (e.iflags &&& 0x1000000#32 == 0#32 &&
     (f0.role == .reg && (f2.role == .rm && shapeOk2 e.rule f0 f2 k0 k2)))))
   | _, _ => false
 
@@ -31,13 +31,15 @@ theorem mri_entries_ok : mriChunks.all (fun c => c.all entryOkMri) = true := by 
 
 /-- the final opcode word with a MEMORY destination: L from the memory operand's size or-ed with the register's -/
 def finalOpMrM (e : Entry) (lxEnc : Nat) (size : Nat) : BitVec 32 :=
-  if e.enc == lxEnc then e.mainOp ||| opcodeLBySize (size ||| (Op.reg (rtypeOf (e.kinds.getD 1 .none)) 0).rmSize) else e.mainOp
+  if e.enc == 0x83 then (e.mainOp &&& kLL_Mask) ||| e.altOp
+  else if e.enc == 0x84 then ((e.mainOp ||| opcodeLBySize (size ||| (Op.reg (rtypeOf (e.kinds.getD 1 .none)) 0).rmSize)) &&& kLL_Mask) ||| e.altOp
+  else if e.enc == lxEnc then e.mainOp ||| opcodeLBySize (size ||| (Op.reg (rtypeOf (e.kinds.getD 1 .none)) 0).rmSize) else e.mainOp
 
 def entryOkMrMem (e : Entry) : Bool :=
   match e.rule.ops, e.kinds with
   | [f2, f0], [_, k0] =>
     allMemAlts f2 (fun size =>
-      e.enc == 0x62 && (memCoreOk e (finalOpMrM e 0x62 size) 0 &&
+      (e.enc == 0x62 || e.enc == 0x83 || e.enc == 0x84) && (memCoreOk e (finalOpMrM e 0x62 size) 0 &&
       (f0.role == .reg && (f2.role == .rm && (plainKind k0 && (noFix f0 && formOpMatches e.rule.oszEff f0 (.reg k0 0)))))))
   | _, _ => false
 
